@@ -16,9 +16,13 @@
      codec_rt         decompressing what the compressor produced gives back the block
    and, inside [script_ok], that a bound column's Infer accepts the block's type string ([accepts]) /
    ColAuto.Infer knows it ([fits] for Auto), that a compressed block fits the frame limits, and that
-   a compressed block is one frame (encode_packets writes one frame per block, as compress.Writer does;
-   several frames per block are exercised by the correspondence runs only). *)
+   a compressed block is one frame (encode_packets writes one frame per block, as compress.Writer does).
+   The second half of this file ([..._frames], Section EnvFrames) lifts every delivery theorem to compressed
+   blocks cut into ANY frames: [wire_script] allows, for every compressed block, every list of frames - any
+   number, any cut points, empty payloads in between, a method of its own per frame - whose decompressed
+   payloads concatenate to the block's encoding. *)
 From CH Require Import model.Recv proofs.ColumnsProofs proofs.CompressProofs proofs.RecvProofs.
+From CH Require Import proofs.PrimProofs proofs.ParserStable proofs.RecvProofs2.
 Open Scope N_scope.
 Open Scope list_scope.
 
@@ -158,3 +162,186 @@ Proof.
     split; [reflexivity|]. split; exact I.
   - intros [|]; (eexists; split; [vm_compute; reflexivity|]; vm_compute; repeat split).
 Qed.
+
+(* ======================================================================================================
+   Compressed blocks made of several frames
+   ====================================================================================================== *)
+(* What the decompressing reader relies on: a decoder of a block answers "unexpected end of input" on every
+   proper prefix of what it accepts (the reader then fetches the next frame and the decoder goes on), for
+   every result binding - nil, typed columns of any type tree, Results.Auto, an empty Results - and every
+   protocol revision and build.  [mono]: a successful decode did not look past what it consumed; [stable]: an
+   error other than end-of-input and a crash do not depend on what follows either. *)
+Theorem block_decoder_prefix_needs_more : forall conflicts infer_target infer_auto c tg pre suf a,
+  block_parser conflicts infer_target infer_auto c tg (pre ++ suf) = Ok a [] -> suf <> [] ->
+  2 * blen (pre ++ suf) + 4096 <= alloc_cap ->
+  block_parser conflicts infer_target infer_auto c tg pre = Err EEof.
+Proof.
+  exact (fun cf it ia c tg pre suf a =>
+           prefix_eof (block_parser cf it ia c tg) pre suf a
+                      (proj1 (ms_block_parser cf it ia c tg)) (proj2 (ms_block_parser cf it ia c tg))).
+Qed.
+Print Assumptions block_decoder_prefix_needs_more.
+
+Section EnvFrames.
+  Variable conflicts : bytes -> bytes -> bool.
+  Variable infer_target : ty -> bytes -> option ty.
+  Variable infer_auto : bytes -> option ty.
+  Variable H : bytes -> N * N.
+  Variable comp : method -> bytes -> option bytes.
+  Variable decomp : N -> bytes -> N -> option bytes.
+  Hypothesis conflicts_refl : forall s, conflicts s s = false.
+  Hypothesis codec : codec_rt comp decomp.
+
+  Notation recv := (recv conflicts infer_target infer_auto H decomp).
+  Notation recv_loop := (recv_loop conflicts infer_target infer_auto H decomp).
+  Notation script_okF := (script_okF infer_target infer_auto).
+  Notation wire_script := (wire_script H comp).
+
+  (* the decompressing path of decodeBlock: ANY decoder with the two properties above, run over ANY list of
+     admissible frames whose payloads concatenate to what it accepts (last payload not empty), returns its
+     value, leaves nothing buffered in compress.Reader and the stream right behind the last frame *)
+  Theorem compressed_block_any_framing : forall A c (p : parser A) a body payload rest,
+    mono p -> stable p -> p body = Ok a [] -> c_comp c = true ->
+    frames_of H comp body payload -> 2 * blen body + 4096 <= alloc_cap ->
+    via H decomp c true p [] (payload ++ rest) = Ok (a, []) rest.
+  Proof. exact (fun A => @via_frames H comp decomp codec A). Qed.
+
+  (* recv_trace for every framing of every compressed block *)
+  Theorem recv_trace_frames : forall c hs tg ps stream rest,
+    script_okF c tg ps -> wire_script c ps stream ->
+    (expected_outcome c hs tg ps = None -> rest = []) ->
+    exists st r,
+      recv c hs tg (stream ++ rest) =
+        (match expected_outcome c hs tg ps with Some o => o | None => OErr (RDecode EEof) end, st, r) /\
+      r_trace st = expected_trace c hs tg ps.
+  Proof. exact (recv_fullF conflicts infer_target infer_auto H comp decomp conflicts_refl codec). Qed.
+
+  (* recv_bound_columns for every framing; also: nothing is left in the decompressing reader *)
+  Theorem recv_bound_columns_frames : forall c hs tg ps stream rest o,
+    script_okF c tg ps -> wire_script c ps stream ->
+    expected_outcome c hs tg ps = Some o ->
+    exists st r, recv c hs tg (stream ++ rest) = (o, st, r) /\
+      r_trace st = expected_trace c hs tg ps /\
+      r_tg st = s_tg (snd (spec_run c hs (sst_init tg) ps)) /\ r_carry st = [].
+  Proof. exact (recv_refines_specF conflicts infer_target infer_auto H comp decomp conflicts_refl codec). Qed.
+
+  (* the stream is left at the packet boundary: after a script without terminating event the loop stands
+     exactly in front of whatever follows, with the callbacks made, the last block bound and nothing buffered *)
+  Theorem recv_packet_boundary_frames : forall c hs tg ps stream rest fuel,
+    script_okF c tg ps -> wire_script c ps stream ->
+    expected_outcome c hs tg ps = None -> (length ps < fuel)%nat ->
+    exists st, r_carry st = [] /\ r_trace st = expected_trace c hs tg ps /\
+      r_tg st = s_tg (snd (spec_run c hs (sst_init tg) ps)) /\
+      recv_loop fuel c hs (st_init tg) (stream ++ rest) = recv_loop (fuel - length ps) c hs st rest.
+  Proof. exact (recv_packet_boundaryF conflicts infer_target infer_auto H comp decomp conflicts_refl codec). Qed.
+
+  Theorem recv_nil_iff_frames : forall c hs tg ps stream rest,
+    script_okF c tg ps -> wire_script c ps stream ->
+    (expected_outcome c hs tg ps = None -> rest = []) ->
+    (fst (fst (recv c hs tg (stream ++ rest))) = ONil <->
+     exists ps1 ps2, ps = ps1 ++ PEnd :: ps2 /\ expected_outcome c hs tg ps1 = None).
+  Proof. exact (recv_nil_iffF conflicts infer_target infer_auto H comp decomp conflicts_refl codec). Qed.
+
+  Theorem exception_chain_frames : forall c hs tg ps1 top next ps2 stream rest,
+    script_okF c tg (ps1 ++ PException top next :: ps2) ->
+    wire_script c (ps1 ++ PException top next :: ps2) stream ->
+    expected_outcome c hs tg ps1 = None ->
+    let e := {| x_top := top ; x_next := next |} in
+    (exists st r, recv c hs tg (stream ++ rest) = (OExc e, st, r) /\
+                  r_trace st = expected_trace c hs tg ps1) /\
+    (forall code, errors_is e code = true <-> In code (map e_code (top :: next))) /\
+    (forall code, is_code e [code] = true <-> e_code top = code).
+  Proof. exact (exception_chainF conflicts infer_target infer_auto H comp decomp conflicts_refl codec). Qed.
+
+  (* the executable framed server (model/Recv.v encode_packets_fr: every block cut after given byte counts, a
+     method per frame) writes such a wire script *)
+  Theorem framed_server_is_wire_script : forall c ps frs stream,
+    encode_packets_fr H comp c ps frs = Some stream -> framings_ok H comp c ps frs -> wire_script c ps stream.
+  Proof. exact (encode_packets_fr_wire H comp). Qed.
+End EnvFrames.
+Print Assumptions compressed_block_any_framing.
+Print Assumptions recv_trace_frames.
+Print Assumptions recv_bound_columns_frames.
+Print Assumptions recv_packet_boundary_frames.
+Print Assumptions recv_nil_iff_frames.
+Print Assumptions exception_chain_frames.
+Print Assumptions framed_server_is_wire_script.
+
+(* non-vacuity: the script of [script_nonvacuous] with compression on; the 2-row block is cut into three frames
+   (after 3 bytes: inside BlockInfo; after 12 more: inside the column header) with three different methods, the
+   Totals block into four, one of them with an empty payload.  The hypotheses of the theorems hold, the bytes
+   differ from the one-frame stream, and the model run by computation delivers the same 4 callbacks, the chain
+   and the Totals block, with nothing left in the decompressing reader. *)
+Definition ex_frs : list framing :=
+  [([], MNone); ([(MLZ4, 3%nat); (MNone, 12%nat)], MZSTD); ([], MNone);
+   ([(MZSTD, 5%nat); (MNone, 0%nat); (MLZ4, 7%nat)], MNone)].
+
+Example frames_nonvacuous :
+  script_okF ex_inf ex_auto (ex_cfg true) ex_tg ex_script /\
+  framings_ok ex_H ex_comp (ex_cfg true) ex_script ex_frs /\
+  exists stream, encode_packets_fr ex_H ex_comp (ex_cfg true) ex_script ex_frs = Some stream /\
+    wire_script ex_H ex_comp (ex_cfg true) ex_script stream /\
+    encode_packets ex_H ex_comp MLZ4 (ex_cfg true) ex_script <> Some stream /\
+    let '(o, st, _) := recv ex_conf ex_inf ex_auto ex_H ex_decomp (ex_cfg true) ex_all ex_tg stream in
+    o = OExc {| x_top := ex_e1 ; x_next := [ex_e2] |} /\ length (r_trace st) = 4%nat /\
+    r_tg st = TgTyped [ex_col [3]] /\ r_carry st = [] /\
+    r_trace st = expected_trace (ex_cfg true) ex_all ex_tg ex_script.
+Proof.
+  assert (Hok : script_okF ex_inf ex_auto (ex_cfg true) ex_tg ex_script).
+  { assert (Hblk : forall tg k n vs, (k = BData \/ k = BTotals) -> blen vs = n -> Forall (fun v => v < 256) vs -> n <= 2 ->
+              fits ex_inf ex_auto tg n [ex_col vs] ->
+              packet_okF ex_inf ex_auto (ex_cfg true) tg (PBlock k ex_info n [ex_col vs])).
+    { intros tg k n vs Hk Hl Hv Hn Hfit. cbn [packet_okF].
+      split; [unfold in_i32; cbn; lia|]. split; [assert (2 <= max_rows) by (vm_compute; discriminate); lia|].
+      split; [vm_compute; discriminate|]. split.
+      - exists [ex_col vs]. split; [|intros _; destruct Hk; subst k; exact Hfit].
+        constructor; [|constructor]. unfold col_ok. cbn. repeat split; try assumption; reflexivity.
+      - intros _ body Hb. unfold encode_block, encode_raw_block in Hb. cbn [enc_cols ex_col c_ty c_data ex_u8] in Hb.
+        assert (Hlen : blen body <= 64); [|unfold alloc_cap; lia].
+        destruct vs as [|v1 [|v2 [|v3 vs]]]; cbn in Hl; subst n;
+          try (vm_compute in Hb; injection Hb as <-; vm_compute; discriminate).
+        exfalso. cbn [length] in Hn. lia. }
+    assert (Hacc : forall vs ws, Forall2 (accepts ex_inf) [ex_col vs] [ex_col ws]).
+    { intros vs ws. constructor; [|constructor]. split; [right; reflexivity|reflexivity]. }
+    cbn [script_okF ex_script].
+    split; [apply Hblk; [now left|reflexivity|constructor|cbn; lia|apply Hacc]|].
+    split; [apply Hblk; [now left|reflexivity|repeat constructor|cbn; lia|apply Hacc]|].
+    split; [reflexivity|].
+    split; [apply Hblk; [now right|reflexivity|repeat constructor|cbn; lia|apply Hacc]|].
+    split; [split; [reflexivity|repeat constructor]|].
+    split; [reflexivity|]. split; exact I. }
+  assert (Hfr : framings_ok ex_H ex_comp (ex_cfg true) ex_script ex_frs).
+  { cbn [framings_ok ex_script ex_frs hd tl framing_ok].
+    assert (Hff : forall m d, blen d <= 64 ->
+              (forall f, compress_frame ex_H ex_comp m d = inr f -> blen f = 25 + blen d) ->
+              frame_fits ex_H ex_comp (m, d)).
+    { intros m d Hd Hf. split; cbn [fst snd].
+      - assert (64 <= maxDataSize) by (vm_compute; discriminate). lia.
+      - intros f Ef. rewrite (Hf f Ef). assert (64 <= maxBlockSize) by (vm_compute; discriminate). lia. }
+    Ltac fr_block Hff :=
+      intros _ body Hb; vm_compute in Hb; injection Hb as <-; split; [vm_compute; discriminate|];
+      cbn [fst snd cut_frames firstn skipn];
+      repeat (apply Forall_cons;
+              [apply Hff; [vm_compute; discriminate|intros f Ef; vm_compute in Ef; injection Ef as <-; reflexivity]|]);
+      apply Forall_nil.
+    split; [fr_block Hff|]. split; [fr_block Hff|]. split; [exact I|]. split; [fr_block Hff|].
+    repeat split. }
+  split; [exact Hok|]. split; [exact Hfr|].
+  eexists. split; [vm_compute; reflexivity|].
+  split; [apply (framed_server_is_wire_script ex_H ex_comp _ _ ex_frs); [vm_compute; reflexivity|exact Hfr]|].
+  split; [vm_compute; discriminate|].
+  vm_compute. repeat split.
+Qed.
+
+(* why [wire_script] asks for a last payload that is not empty: with one more frame without payload BEHIND the
+   2-row block (cut after all of its 21 bytes) the decoder has the whole block after the first frame and never asks
+   for the second, which is then read as the next packet - the run ends in a decode error after two callbacks
+   (the malformed family `trailing-empty-frame` of the harness observes the same on the implementation) *)
+Example trailing_empty_frame_is_not_consumed :
+  match encode_packets_fr ex_H ex_comp (ex_cfg true) ex_script [([], MNone); ([(MLZ4, 21%nat)], MNone)] with
+  | Some stream =>
+    let '(o, st, _) := recv ex_conf ex_inf ex_auto ex_H ex_decomp (ex_cfg true) ex_all ex_tg stream in
+    o = OErr (RDecode ECorrupt) /\ length (r_trace st) = 2%nat
+  | None => False
+  end.
+Proof. vm_compute. split; reflexivity. Qed.
